@@ -16,13 +16,16 @@ import (
 	"context"
 	"fmt"
 	"net"
+	"regexp"
 	"sort"
 	"strconv"
+	"strings"
 	"sync"
 	"sync/atomic"
 	"testing"
 	"time"
 
+	"github.com/edgexfoundry/go-mod-core-contracts/v4/clients/logger"
 	"github.com/edgexfoundry/go-mod-core-contracts/v4/models"
 )
 
@@ -324,6 +327,84 @@ func c16auto(ctx context.Context, nets [][2]uint32, deadline time.Duration) stri
 	return c16list(dialled)
 }
 
+// c16skipLog captures the service's "Skip scan of <ip>:<port>…" debug lines: with every host of the configured networks
+// registered (and Up), each enumerated address is skipped instead of dialled, so networks outside 127/8 can be observed
+// without a listener. Only the address is taken from the line.
+type c16skipLog struct {
+	logger.LoggingClient
+	mu   sync.Mutex
+	seen []uint32
+}
+
+var c16addrRe = regexp.MustCompile(`(\d+)\.(\d+)\.(\d+)\.(\d+):\d+`)
+
+func (l *c16skipLog) Debug(msg string, args ...interface{}) {
+	if strings.Contains(msg, "Skip") {
+		if m := c16addrRe.FindStringSubmatch(msg); m != nil {
+			var a uint32
+			for _, s := range m[1:] {
+				n, _ := strconv.Atoi(s)
+				a = a<<8 | uint32(n)
+			}
+			l.mu.Lock()
+			l.seen = append(l.seen, a)
+			l.mu.Unlock()
+		}
+	}
+}
+func (l *c16skipLog) Debugf(msg string, args ...interface{}) { l.Debug(fmt.Sprintf(msg, args...)) }
+
+// c16autoSkip runs the real autoDiscover over networks anywhere in the IPv4 space, all of whose hosts are registered
+// devices in state Up; returns the sorted multiset of addresses the workers met (and skipped), "inconclusive" when no
+// skip line could be read at all (the log text is not part of the property), or "blocked".
+func c16autoSkip(nets [][2]uint32, deadline time.Duration) string {
+	var devs []models.Device
+	seen := map[uint32]bool{}
+	for _, n := range nets {
+		lo, hi := n[0]&^(1<<(32-n[1])-1), n[0]|(1<<(32-n[1])-1)
+		if n[1] == 32 {
+			lo, hi = n[0], n[0]
+		}
+		for a := lo; ; a++ {
+			if !seen[a] {
+				seen[a] = true
+				ip := fmt.Sprintf("%d.%d.%d.%d", a>>24, a>>16&255, a>>8&255, a&255)
+				devs = append(devs, models.Device{Name: "reg-" + ip, OperatingState: models.Up,
+					Protocols: map[string]models.ProtocolProperties{"tcp": {"host": ip, "port": "5084"}}})
+			}
+			if a == hi {
+				break
+			}
+		}
+	}
+	oldSvc, oldLc := driver.svc, driver.lc
+	lg := &c16skipLog{LoggingClient: oldLc}
+	driver.svc, driver.lc = c17newSvc(devs), lg
+	defer func() { driver.svc, driver.lc = oldSvc, oldLc }()
+	var subnets []string
+	for _, n := range nets {
+		subnets = append(subnets, c16cidr(n[0], int(n[1])))
+	}
+	done := make(chan struct{})
+	go func() {
+		defer close(done)
+		defer func() { _ = recover() }()
+		autoDiscover(context.Background(), discoverParams{subnets: subnets, asyncLimit: 4, timeout: 200 * time.Millisecond, scanPort: "5084"})
+	}()
+	select {
+	case <-done:
+	case <-time.After(deadline):
+		return "blocked"
+	}
+	lg.mu.Lock()
+	defer lg.mu.Unlock()
+	if len(lg.seen) == 0 {
+		return "inconclusive"
+	}
+	sort.Slice(lg.seen, func(i, j int) bool { return lg.seen[i] < lg.seen[j] })
+	return c16list(lg.seen)
+}
+
 func TestVerifC16(t *testing.T) {
 	o := vopen(t)
 	defer o.close()
@@ -365,6 +446,25 @@ func TestVerifC16(t *testing.T) {
 		o.line("auto-cancelled after-20ms", obs)
 	}
 	driver.svc = oldSvc
+	// 0b. networks anywhere in the IPv4 space (link-local, private, public, the ends of the space, multicast and broadcast
+	// ranges written as CIDR): observed through the skip rule instead of a listener
+	for _, nets := range [][][2]uint32{
+		{{0x7F000900, 30}, {0xA9FE0100, 29}},                  // 127.0.9.0/30, 169.254.1.0/29 (link-local)
+		{{0xA9FE4D0C, 30}, {0xA9FE01C8, 32}, {0x0A000000, 30}}, // 169.254.77.12/30, 169.254.1.200/32, 10.0.0.0/30
+		{{0xC0A80164, 31}, {0xAC100000, 29}, {0x08080800, 30}}, // 192.168.1.100/31, 172.16.0.0/29, 8.8.8.0/30
+		{{0x00000000, 29}, {0xFFFFFFF8, 29}, {0xE0000000, 30}}, // 0.0.0.0/29, 255.255.255.248/29, 224.0.0.0/30
+		{{0x00000001, 30}, {0x64400000, 30}},                   // 0.0.0.1/30 (unaligned), 100.64.0.0/30
+	} {
+		req := "auto"
+		for _, n := range nets {
+			req += fmt.Sprintf(" %d/%d", n[0], n[1])
+		}
+		obs := c16autoSkip(nets, 30*time.Second)
+		if obs == "inconclusive" {
+			continue
+		}
+		o.line(req, obs)
+	}
 
 	// base addresses: corners, x.y.z.255, 255.255.255.x, octet crossings, unaligned, then random from the seed
 	bases := []uint32{
